@@ -204,6 +204,20 @@ Keywords1 ==
                                                 Km(<<"y">>, "query", << [n |-> "loop", t |-> "u32"] >>),
                                                 Km(<<"z">>, "sudo", << [n |-> "move", t |-> "u32"] >>) >>] >>]
 
+(* argument names that are also names of locals, parameters and fields the generated code itself uses (the builders' `funds`, the
+   helpers' `contract`, the entry points' `deps` / `env` / `info` / `msg`, the instantiate proxy's `code_id` / `label` / `admin` / `salt`) *)
+Locals1 ==
+    [id |-> "L1", family |-> "shared", overrides |-> {},
+     parts |-> << [id |-> "i1", methods |-> << Km(NameFoo, "exec", << [n |-> "funds", t |-> "u32"], [n |-> "contract", t |-> "String"], [n |-> "msg", t |-> "u32"] >>),
+                                               Km(NameBar, "query", << [n |-> "querier", t |-> "u32"], [n |-> "contract", t |-> "String"] >>),
+                                               Km(<<"z">>, "sudo", << [n |-> "env", t |-> "u32"], [n |-> "deps", t |-> "String"] >>) >>],
+                  [id |-> "own", methods |-> << Km(NameInstantiate, "instantiate", << [n |-> "code_id", t |-> "u32"], [n |-> "label", t |-> "String"], [n |-> "admin", t |-> "u32"],
+                                                                                     [n |-> "salt", t |-> "u32"], [n |-> "funds", t |-> "u32"] >>),
+                                                Km(<<"x">>, "exec", << [n |-> "funds", t |-> "u32"], [n |-> "contract", t |-> "String"], [n |-> "info", t |-> "u32"], [n |-> "sender", t |-> "u32"] >>),
+                                                Km(<<"y">>, "query", << [n |-> "deps", t |-> "u32"], [n |-> "msg", t |-> "String"], [n |-> "app", t |-> "u32"] >>),
+                                                Km(<<"x","_","y">>, "sudo", << [n |-> "msg", t |-> "u32"], [n |-> "contract", t |-> "String"] >>),
+                                                Km(NameMigrate, "migrate", << [n |-> "msg", t |-> "u32"], [n |-> "code_id", t |-> "u32"], [n |-> "app", t |-> "String"] >>) >>] >>]
+
 (* struct-message handlers (instantiate, migrate) whose names do not survive the snake -> UpperCamel -> snake round trip,
    next to a handler of another kind that carries the re-derived name and the same arguments (C04) *)
 Shared3 ==
@@ -338,7 +352,7 @@ PermTwin(p) ==
 RawSeq ==      \* all programs of this instance, as a sequence
        [gi \in 1..Len(Groups) |-> CorpusProg(gi)]
     \o [i \in 1..Len(SmallFs) |-> SmallProgOf(SmallFs[i], "m" \o ToString(i))]
-    \o <<Shared1, Shared2, Shared3, Nested1, Unicode1, Empty1, CtxKinds1, Wide1, Defaults1, Keywords1, Generic1, Generic2, Generic3, PermTwin(Shared1), PermTwin(CorpusProg(1)),
+    \o <<Shared1, Shared2, Shared3, Nested1, Unicode1, Empty1, CtxKinds1, Wide1, Defaults1, Keywords1, Locals1, Generic1, Generic2, Generic3, PermTwin(Shared1), PermTwin(CorpusProg(1)),
       Alias1, Alias2(FALSE), Alias2(TRUE), MsgAttrs1, Spread1, PermTwin(Spread1)>> \o OverrideProgs \o CollideProgs
 
 (* the table of elaborated programs: the static semantics applied once per program *)
@@ -444,7 +458,7 @@ B == INSTANCE BuilderOps
 BuilderRuns(q) == IF q.family # "shared" THEN <<>>
                   ELSE SetToSeq(B!Runs("exec", BuilderSets)) \o SetToSeq(B!Runs("inst", BuilderSets))
 (* programs whose generated multitest proxies are exercised by operation histories (C12, MC_Multitest) *)
-MtIds == {"S1", "R1", "R2", "R4", "A1", "W1", "K1"}        \* (R4: its migrate handler fails)
+MtIds == {"S1", "R1", "R2", "R4", "A1", "W1", "K1", "L1"}        \* (R4: its migrate handler fails)
 EmitProg(q) == q @@ [builder |-> BuilderRuns(q), mt |-> q.id \in MtIds] @@ [stim |-> LET ss == SetToSeq(StimSet(q)) IN [i \in 1..Len(ss) |-> ss[i] @@ [vias |-> ViasOf(q, ss[i])]]]
 
 EmitCorpus ==
